@@ -14,5 +14,7 @@ void vf_event(int kind, int64_t a, int64_t b, int64_t c, int64_t d);
 int64_t vf_clock_ns(void);
 void vf_clock_advance(int64_t d);
 void vf_cfg_set(int which, int idx, int64_t val);
+int64_t vf_cfg_get(int which, int idx);
+int vf_uuid_serial_of(const char* s);
 void vf_objcopy(void* dst, const void* src, size_t n) noexcept;   /* whole-object copy (ll2c emits a typed aggregate assignment) */
 }
